@@ -204,7 +204,7 @@ func funcSplitVec(chunk []KVPair, args []Expression, ctx *ExecuteCtx) ([]any, er
 func funcJoinVec(chunk []KVPair, args []Expression, ctx *ExecuteCtx) ([]any, error) {
 	ret := make([]any, len(chunk))
 	for i := 0; i < len(chunk); i++ {
-		row, err := funcJoin(chunk[i], args, ctx)
+		row, err := funcJoin(chunk[i], args, nil)
 		if err != nil {
 			return nil, err
 		}
@@ -270,7 +270,7 @@ func funcL2DistanceVec(chunk []KVPair, args []Expression, ctx *ExecuteCtx) ([]an
 func funcFloatListVec(chunk []KVPair, args []Expression, ctx *ExecuteCtx) ([]any, error) {
 	ret := make([]any, len(chunk))
 	for i := 0; i < len(chunk); i++ {
-		row, err := funcFloatList(chunk[i], args, ctx)
+		row, err := funcFloatList(chunk[i], args, nil)
 		if err != nil {
 			return nil, err
 		}
@@ -282,7 +282,7 @@ func funcFloatListVec(chunk []KVPair, args []Expression, ctx *ExecuteCtx) ([]any
 func funcIntListVec(chunk []KVPair, args []Expression, ctx *ExecuteCtx) ([]any, error) {
 	ret := make([]any, len(chunk))
 	for i := 0; i < len(chunk); i++ {
-		row, err := funcIntList(chunk[i], args, ctx)
+		row, err := funcIntList(chunk[i], args, nil)
 		if err != nil {
 			return nil, err
 		}
